@@ -39,7 +39,7 @@ def strategy(tier):
     def _s(draw):
         case = draw(
             SC.solve_case(
-                families=("nlp", "nlp", "qp", "qp", "degenerate"),
+                families=("nlp", "nlp", "qp", "qp", "degenerate", "patternvar"),
                 max_n=4 if tier == "quick" else 6,
                 max_m=3,
                 scalings=("none", "custom", "custom", "gradjac"),
@@ -85,12 +85,13 @@ def check(case):
         rec = make_recording_problem(inner, record_frames=False)
         c2 = dict(case)
         _, params, _, _ = SC.build(c2)
-        solver = make_tracing_solver(rec, params)
         x0 = None if x0s is None else (x0s if np.isscalar(x0s) else np.array(x0s, dtype=float))
         y0 = None if y0s is None else np.array(y0s, dtype=float)
+        # snapshot *before* the Solver is constructed: the transformation is built there
         owned = _arrays_of(params, rec, x0, y0)
         owned.update({f"inner.{k}": v for k, v in _arrays_of(params, inner, None, None).items() if k.startswith(("var_", "cons_"))})
         before = {k: (v.copy(), v.dtype) for k, v in owned.items()}
+        solver = make_tracing_solver(rec, params)
         # objects handed out while the Solver was constructed (automatic scalings evaluate the
         # callbacks at the scaling point) stay under observation: they are caller-owned as well
         rec.clear()
